@@ -619,8 +619,15 @@ inline bool wifi_apply(PDU& p, const std::vector<std::string>& op) {
         // implementation-side C04 oracle: a typed setter called with a representable argument on a frame that has no
         // such option yet must be read back by its getter as exactly that argument ("getters reflect the edits")
         std::string name, want;
-        bool check = wifi_expected(op, name, want) && wifi_typed_find(wifi_typed(*m), name).empty();
+        bool check = wifi_expected(op, name, want);
+        std::vector<uint8_t> before;
+        for (Dot11::options_type::const_iterator it = m->options().begin(); it != m->options().end(); ++it) before.push_back(it->option());
         if (!dot11_typed_apply(*m, op)) return false;
+        // "first matching option": the getter sees the new option only if no option of its code was there before
+        if (check && !m->options().empty()) {
+            uint8_t code = m->options().back().option();
+            for (size_t i = 0; i < before.size(); ++i) if (before[i] == code) check = false;
+        }
         if (check) {
             std::string got = wifi_typed_find(wifi_typed(*m), name);
             if (got != name + ":" + want) throw std::runtime_error("codec-mismatch " + name + " want " + want + " got " + got);
